@@ -544,6 +544,8 @@ pub struct World {
     pub die_after_accepting: Option<usize>,
     /// the broker answered the last CONNACK with Session Expiry Interval 0
     pub broker_session_expiry_zero: bool,
+    /// Receive Maximum the prompt, conformant broker of the final reconnects grants
+    pub final_small_rm: Option<u16>,
     /// twin runs: the next operation is not cancelled (last attempt of a repeated disconnect)
     pub no_cancel: bool,
     pub qos0_cancelled: bool,
@@ -635,6 +637,7 @@ impl World {
             cancel_once: false,
             die_after_accepting: None,
             broker_session_expiry_zero: false,
+            final_small_rm: None,
             no_cancel: false,
             qos0_cancelled: false,
             burn_done: false,
@@ -950,6 +953,15 @@ impl World {
                         crate::util::hex(&rem)
                     ),
                 );
+                if inside != "DISCONNECT" && inside != "CONNECT" {
+                    // C09: the broker decodes the interrupted packet with foreign bytes in its
+                    // middle, i.e. not what the application asked to send
+                    self.violate(
+                        "C09",
+                        format!("undecodable/interrupted-by-another-packet/{inside}"),
+                        format!("the {inside} packet under way reaches the broker with the bytes of a {newp} packet in its middle"),
+                    );
+                }
                 // the byte stream is unusable from here on: verdicts up to this point stand
                 self.conns[conn].wire_broken = true;
                 self.cut = true;
